@@ -32,6 +32,27 @@ def load_tables(mods=None):
     return ISA
 
 
+def specialise(env, exp, info):
+    """The oracle state is computed once per unit as a function of the symbolic inputs.  On one explored path the
+    conditions it is merged on (condition passed, UNDEFINED, in an IT block, exception taken) are usually decided by
+    the path condition: decide each with the solver (pc => c, pc => not c) and substitute the constant, so that the
+    remaining obligation compares the executed branch only (same claim, by pc-equivalence; undecided conditions are
+    left alone)."""
+    if not env.symbolic:
+        return exp
+    subs = []
+    for c in info.get('facts', []):
+        if z3.is_true(c) or z3.is_false(c):
+            continue
+        if core.CTX.check(z3.Not(c)) == z3.unsat:
+            subs.append((c, z3.BoolVal(True)))
+        elif core.CTX.check(c) == z3.unsat:
+            subs.append((c, z3.BoolVal(False)))
+    if not subs:
+        return exp
+    return exp.map_terms(lambda t: z3.simplify(z3.substitute(t, *subs)))
+
+
 def mk_step(enc, arch=6, sec=True, virt=False, vmsa=False, mode=None, it='any', e_sym=False, sym_sys=None,
             set_sys=None, tables=None, expect_class=True, extra_assume=None, fix=None, failed_cond=False,
             havoc_scratch=False, foreign_config=None, reg_values=None, prehistory=None, mpu=None, mpu_rsize=None):
@@ -202,6 +223,6 @@ def mk_step(enc, arch=6, sec=True, virt=False, vmsa=False, mode=None, it='any', 
             got = m.decoded[0].__name__ if m.decoded and m.decoded[0] is not None else None
             cl.append(('decoder selects %s' % enc, z3.BoolVal(got == enc), 'got %s' % got))
         env.note('outcome', 'executed' if m.executed else 'no-execute')
-        cl += m.compare(m.exp)
+        cl += m.compare(specialise(env, m.exp, m.info) if not failed_cond else m.exp)
         return cl
     return fn
